@@ -245,8 +245,9 @@ def make_stub(seed, kind):
 _DB = {}
 
 
-def _load(name):
-    if name in _DB:
+def _load(name, private=False):
+    """private=True: a fresh instance that the caller may reconfigure (user-table histories); never cached here"""
+    if name in _DB and not private:
         return _DB[name]
     vlib.use_repo()
     with warnings.catch_warnings():
@@ -266,6 +267,8 @@ def _load(name):
             th = BinaryThermodynamics(ds.NICRAL_TDB, ['NI', 'CR'], ['FCC_A1'], drivingForceMethod='tangent')   # no second phase loaded: box kept inside the gamma field (x_Cr <= 0.30, T >= 1000 K)
         elif name == 'AlZr':
             th = BinaryThermodynamics(ds.ALZR_TDB, ['AL', 'ZR'], ['FCC_A1', 'AL3ZR'], drivingForceMethod='tangent')
+        elif name == 'AlZr-nomob':      # the shipped Al-Zr database variant without any mobility/diffusivity parameters
+            th = BinaryThermodynamics(ds.ALZR_TDB_NO_MOB, ['AL', 'ZR'], ['FCC_A1', 'AL3ZR'], drivingForceMethod='tangent')
         elif name == 'AlZr-ex':
             th = BinaryThermodynamics(os.path.join(ex, 'AlScZr.tdb'), ['AL', 'ZR'], ['FCC_A1', 'AL3ZR'], drivingForceMethod='tangent')
         elif name == 'FeCrNi':
@@ -281,6 +284,8 @@ def _load(name):
             th.setDFSamplingDensity(2000); th.setEQSamplingDensity(500)
         except Exception:
             pass
+    if private:
+        return th
     _DB[name] = th
     return th
 
@@ -298,6 +303,7 @@ BOXES = {
     'NiCr': lambda g: (g.uniform(0.005, 0.30), g.uniform(1000, 1500)),
     'AlZr': lambda g: (_loguni(g, 1e-7, 2e-3), g.uniform(600, 900)),
     'AlZr-ex': lambda g: (_loguni(g, 1e-7, 2e-3), g.uniform(600, 900)),
+    'AlZr-nomob': lambda g: (_loguni(g, 1e-7, 2e-3), g.uniform(600, 900)),
     'FeCrNi': lambda g: ([g.uniform(0.02, 0.25), g.uniform(0.08, 0.40)], g.uniform(1200, 1500)),
     'AlMgSi': lambda g: ([_loguni(g, 1e-4, 1e-2), _loguni(g, 1e-4, 1e-2)], g.uniform(700, 850)),
     'CuTi': lambda g: (_loguni(g, 1e-4, 3e-2), g.uniform(800, 1150)),
